@@ -406,7 +406,7 @@ void DVectNorm(dvector *v, dvector *nv)
 
   mod = DvectorModule(v);
 
-  if((*nv).size != 0 && (*nv).size <= v->size){ /* store the normalized vor value to an other vor named n_v */
+  if((*nv).size != 0 && (*nv).size >= v->size){ /* store the normalized vor value to an other vor named n_v */
     for(i = 0; i < v->size; i++){
       if(FLOAT_EQ(v->data[i], MISSING, 1e-1)){
         nv->data[i] = MISSING;
